@@ -106,7 +106,7 @@ def contracts():
             &&& final(w).fs.events == old(w).fs.events.push(FsEvent::Hook { ty: crate::hooks::hook_type_id(start_type(id.challenge)), data: crate::hooks::hook_data_id(t.0) })
         }), //@C05.challenge_hooks_of_the_configured_type_get_the_proof,C10.env_identifier_over_certificate_over_daemon
         r is Err ==> final(w).fs.events == old(w).fs.events || exists|e: FsEvent| final(w).fs.events == old(w).fs.events.push(e),
-""", rewrites=[("T-MAP", r"env: HashMap::new\(\)", "env: crate::venv::new_map()")],
+""", rewrites=[("T-MAP", r"env: HashMap::new\(\)", "env: crate::venv::new_map()")] + ENV_IDIOMS,
         at=[("before_stmt", "Ok((hook_data, hook_type.1))", 1, """
         proof {
             let p = proc_env(); let c = envmap(self.env); let i = envmap(identifier.env);
@@ -199,6 +199,14 @@ pub broadcast proof fn axiom_challenge_to_string(c: &Challenge, r: String)
     u.verify(CRT, "Certificate::call_post_operation_hooks", "certificate", props=["C07", "C10"], fns={"call_post_operation_hooks": c["call_post_operation_hooks"]})
     return u
 
+
+# T-MAP idioms on environment maps (optional: applied wherever they occur)
+ENV_IDIOMS = [
+    ("T-MAP", r"(?P<a>\w+)\.extend\(\s*(?P<b>[\w\.]+?)\s*\.iter\(\)\s*\.map\(\|\(k, v\)\| \((?:k\.to_owned\(\), v\.to_owned\(\)|k\.clone\(\), v\.clone\(\)|k\.to_string\(\), v\.to_string\(\))\)\)\s*\)",
+     lambda m: f"crate::venv::extend_from(&mut {m.group('a')}, &{m.group('b')})", None),
+    ("T-MAP", r"(?P<a>\w+)\.extend\((?P<b>[\w\.]+?)\.clone\(\)\)", lambda m: f"crate::venv::extend_from(&mut {m.group('a')}, &{m.group('b')})", None),
+    ("T-MAP", r"(?P<b>(?:self|identifier|fm)\.env)\.clone\(\)", lambda m: f"crate::venv::clone_map(&{m.group('b')})", None),
+]
 
 HOOKS_STUB = """
 // hooks.rs is under contract in unit `hooks`; here what certificate.rs needs of it
